@@ -105,6 +105,26 @@ def gen_section(rng, ids, names_used, kind):
     return {'vars': vars_, 'rows': [[i, [tok(gen_value(rng)) for _ in range(tot)]] for i in order]}
 
 
+POW10 = [9, 10, 11, 99, 100, 101, 999, 1000, 9999, 10000, 10001, 99999, 100000, 999999, 1000000, 9999999]
+
+
+def gen_steps(rng, n):
+    """distinct step numbers from 0 .. 10^7: small ones, neighbours of powers of ten, and random
+    numbers of every digit count, so that numeric and (padded / plain) lexicographic orders differ"""
+    out = set()
+    while len(out) < n:
+        k = rng.random()
+        if k < 0.3:
+            out.add(rng.choice([0, 1, 2, 3, 5, 7, 20, 25, 250, 40000, 12345]))
+        elif k < 0.65:
+            out.add(rng.choice(POW10))
+        else:
+            out.add(rng.randrange(10 ** rng.randint(0, 6), 10 ** 7))
+    out = list(out)
+    rng.shuffle(out)
+    return out
+
+
 def gen_case(rng, cid):
     c = {'id': cid}
     nt = rng.choice([1, 1, 2, 2, 3])
@@ -141,7 +161,7 @@ def gen_case(rng, cid):
                    'wc': rng.choice([1, 2, 3, 10, 10]), 'w': rng.choice([1, 2, 3, 5, 5, 5, 8])}
     c['time_series'] = rng.random() < 0.5
     nsteps = rng.choice([1, 2, 2, 3, 4, 6]) if c['time_series'] else rng.choice([1, 2, 3, 4])
-    steps = rng.sample([0, 1, 2, 3, 5, 9, 10, 11, 20, 99, 100, 101, 1000, 12345], nsteps)
+    steps = gen_steps(rng, nsteps)
     used_names = set()
     has_el = rng.random() < 0.75
     proto_n = gen_section(rng, nids, used_names, 'nodal')
@@ -438,7 +458,12 @@ def check_real(ctx):
 
 # ----------------------------------------------------------------------- main
 def case_for_replay(c):
-    return {k: c[k] for k in ('mesh', 'layout', 'time_series', 'files')}
+    d = {k: c[k] for k in ('mesh', 'layout', 'time_series', 'files')}
+    if c.get('path_key'):
+        d['path_key'] = c['path_key']
+        if c.get('_prev') is not None:
+            d['preceded_by'] = c['_prev']     # read from the same directory just before, same process
+    return d
 
 
 def describe(c):
@@ -449,9 +474,17 @@ def describe(c):
 
 
 def check_cases(ctx, cases, tag, tie_ok, cfg):
+    last_shared = {}
+    for c in cases:
+        if c.get('path_key'):
+            prev = last_shared.get(c['path_key'])
+            c['_prev'] = {k: v for k, v in case_for_replay(prev).items() if k != 'preceded_by'} if prev else None
+            last_shared[c['path_key']] = c
     res = run_impl(ctx, cases)
     oracle_bad = {}
     for c in cases:
+        ctx.count('history:' + ('same-dir-rewrite' if c.get('_prev') else 'fresh-dir'))
+        ctx.count('max_step_digits:%d' % len(str(max(f['step'] for f in c['files']))))
         for f in c['files']:
             for sec in (f['content']['nodal'], f['content']['elemental']):
                 for _, vals in (sec['rows'] if sec else []):
@@ -503,13 +536,15 @@ def check_cases(ctx, cases, tag, tie_ok, cfg):
                       {'impl_error': r.get('read_error'), 'tb': r.get('tb')},
                       'correspondence C02 (Corr.agree_dir)', found_input=cid in oracle_bad,
                       signature={'kind': 'correspondence', 'time_series': c['time_series'],
-                                 'n_files': min(len(c['files']), 2), 'raised': 'read_error' in r})
+                                 'n_files': min(len(c['files']), 2), 'raised': 'read_error' in r,
+                                 'history': 'same-dir-rewrite' if c.get('_prev') else 'fresh-dir'})
     for cid, d in sorted(oracle_bad.items()):
         c, r = by_id[cid], res[cid]
         sig = {'site': 'FrontISTRData.read_files', 'time_series': c['time_series'],
                'n_files': len(c['files']) if len(c['files']) < 2 else 'several',
                'raised': (r.get('read_error') or '').split(':')[0] or None,
-               'explained_by_model': bool(tie_ok and cid not in bad['D'])}
+               'explained_by_model': bool(tie_ok and cid not in bad['D']),
+               'history': 'same-dir-rewrite' if c.get('_prev') else 'fresh-dir'}
         ctx.violation('impl-violation', case_for_replay(c),
                       'every value read under the id / variable / step it was written for',
                       {'differences': d[:6], 'tb': r.get('tb')}, 'C02 oracle on implementation',
@@ -529,8 +564,9 @@ def main(ctx):
     ctx.rule = ('generated directories: mesh (1-3 element types of tet/hex/prism/pyr/tet2, interleaved sparse/large '
                 'ids, all nodes referenced) written by femio, 1-6 result files rendered in the S-layout '
                 '(old / 2.0 header, pad 0-2 blanks, 1-10 counts per line, 1-8 values per line, 1-6 nodal and 0-4 '
-                'elemental variables of 1-9 components, rows in shuffled id order, shuffled multi-digit step '
-                'numbers), read with and without time_series; non-trivial = femio read the directory; '
+                'elemental variables of 1-9 components, rows in shuffled id order, shuffled step numbers from 0..10^7 '
+                'incl. neighbours of powers of ten), read with and without time_series; every third directory is '
+                'one shared path rewritten and re-read in the same process; non-trivial = femio read the directory; '
                 'distinct = distinct full input.  Plus solver outputs of tests/data/fistr (S cross-check)')
     ctx.trusted += [
         'S-definition Model.render_res (layout FrontISTR writes); cross-checked against the solver outputs in '
@@ -601,7 +637,10 @@ def main(ctx):
         cases.append(c)
     n = {'quick': 120, 'thorough': 2000}[ctx.tier]
     for _ in range(n):
-        cases.append(gen_case(ctx.rng, len(cases)))
+        c = gen_case(ctx.rng, len(cases))
+        if c['id'] % 3 == 0:
+            c['path_key'] = 'h'     # same-process history: one directory rewritten and re-read
+        cases.append(c)
     step = 300
     for k in range(0, len(cases), step):
         check_cases(ctx, cases[k:k + step], f'g{k // step}', model_ok, cfg)
@@ -623,21 +662,37 @@ def replay(path):
     if 'mesh' not in c:
         print('nothing to replay on the implementation:', json.dumps(rp, indent=1)[:2000])
         return 1
-    ctx = lib.Ctx(PID, 'quick')
+    try:
+        ctx = lib.Ctx(PID, 'quick', clear_replays=False)
+    except TypeError:
+        ctx = lib.Ctx(PID, 'quick')
     c = dict(c)
     c['id'] = 0
-    r = run_impl(ctx, [c])[0]
+    if c.get('preceded_by'):
+        prev = dict(c['preceded_by'])
+        prev['id'] = 0
+        prev['path_key'] = c['path_key']
+        c['id'] = 1
+        print('history: first the preceding directory content is written to and read from the same path')
+        r = run_impl(ctx, [prev, c])[1]
+    else:
+        r = run_impl(ctx, [c])[0]
     print('implementation:', json.dumps({k: r.get(k) for k in ('read_error', 'tb', 'time_steps', 'types', 'nodal',
                                                                'elemental')}, indent=1)[:5000])
     bad = [('raised', r['read_error'])] if 'read_error' in r else oracle(c, r)
     print('differences:', bad[:10])
-    cfg, _ = c02_cfg.translate(str(lib.REPO))
-    lib.write_if_changed(lib.COQ / 'C02' / 'gen' / 'ResCfg.v', c02_cfg.emit(cfg))
-    ok, log, _ = lib.coq_make(['C02/Corr.vo', 'C02/gen/ResCfg.vo'])
+    try:
+        cfg, _ = c02_cfg.translate(str(lib.REPO))
+        lib.write_if_changed(lib.COQ / 'C02' / 'gen' / 'ResCfg.v', c02_cfg.emit(cfg))
+        ok, log, _ = lib.coq_make(['C02/Corr.vo', 'C02/gen/ResCfg.vo'])
+    except c02_cfg.TranslateError as e:
+        print('translator failed closed:', e)
+        ok = False
     if ok:
-        b = coq_check(ctx, [c], {0: r}, 'replay')
-        print('model: rendering agrees:', 0 not in b['R'], '| read_dir agrees with femio:', 0 not in b['D'],
-              '| model round trip holds:', 0 not in b['P'])
+        i = c['id']
+        b = coq_check(ctx, [c], {i: r}, 'replay')
+        print('model: rendering agrees:', i not in b['R'], '| read_dir agrees with femio:', i not in b['D'],
+              '| model round trip holds:', i not in b['P'])
     print('property', 'VIOLATED' if bad else 'holds', 'on this input')
     return 1 if bad else 0
 
